@@ -54,7 +54,7 @@ class validate(DataStreamProcessor):
         if self.resources.match(res.res.name):
             yield from self.validator(res)
         else:
-            yield from super().process_resource()
+            yield from super().process_resource(res)
 
     def process_datapackage(self, dp):
         self.resources = ResourceMatcher(self.resources, dp)
